@@ -178,6 +178,32 @@ Proof.
   change (0 =? 0) with true. cbv iota. cbn [res_map app]. reflexivity.
 Qed.
 
+Lemma gr_loop_no_panic ps phys : forall fuel w acc off,
+  snd (gr_read_exact_loop ps phys fuel w acc off) <> Panic.
+Proof.
+  induction fuel as [|f IH]; intros w acc off; cbn [gr_read_exact_loop]; [discriminate|].
+  destruct (w =? 0); [discriminate|].
+  unfold gr_read. cbv zeta.
+  repeat match goal with |- context [if ?x then _ else _] => destruct x end; try discriminate.
+  all: try apply IH.
+  all: match goal with |- context [match ?l with [] => _ | _ :: _ => _ end] => destruct l end;
+    [discriminate|apply IH].
+Qed.
+
+Lemma extract_xml_no_panic img xo xl off :
+  snd (rrun_g 1024 img (extract_xml xo xl) off) <> Panic.
+Proof.
+  unfold extract_xml.
+  destruct (MAX_XML_SIZE <? xl); [discriminate|].
+  rewrite rrun_g_bind. unfold r_seek at 1. cbn [rrun_g gr_step].
+  destruct (len img <=? xo); cbn [fst snd]; [discriminate|].
+  unfold rd, r_read_exact. cbn [rrun_g gr_step]. cbv zeta.
+  match goal with |- context [gr_read_exact_loop ?a1 ?a2 ?a3 ?a4 ?a5 ?a6] =>
+    pose proof (gr_loop_no_panic a1 a2 a3 a4 a5 a6) as Hn;
+    destruct (gr_read_exact_loop a1 a2 a3 a4 a5 a6) as [o3 [y|e3|]] end; cbn [res_map snd rrun_g] in *;
+    try discriminate. congruence.
+Qed.
+
 (** * [reader_open] on an arbitrary image *)
 
 Definition open_result (img : list N) : res (pr * header * list N) :=
@@ -221,24 +247,7 @@ Proof.
     cbn [fst snd rret rrun_g].
   - right. exists s1, h, x. repeat split; auto. rewrite Ex. reflexivity.
   - left. eauto.
-  - (* extract_xml does not panic *)
-    exfalso. revert Ex. unfold extract_xml.
-    destruct (MAX_XML_SIZE <? h_xml_length h); [discriminate|].
-    rewrite rrun_g_bind. unfold r_seek at 1. cbn [rrun_g gr_step].
-    destruct (len img <=? h_xml_offset h); cbn [fst snd]; [discriminate|].
-    unfold rd, r_read_exact. cbn [rrun_g gr_step]. cbv zeta.
-    match goal with |- context [gr_read_exact_loop ?a ?b ?c ?d ?e ?f] =>
-      destruct (gr_read_exact_loop a b c d e f) as [o3 [y|e|]] eqn:El end; cbn [res_map]; try discriminate.
-    exfalso. revert El. clear.
-    match goal with |- gr_read_exact_loop _ _ ?fuel ?w ?acc ?off = _ -> _ =>
-      generalize fuel, w, acc, off end.
-    induction n as [|f IH]; intros w acc off; cbn [gr_read_exact_loop]; [discriminate|].
-    destruct (w =? 0); [discriminate|].
-    unfold gr_read. cbv zeta.
-    repeat match goal with |- context [if ?x then _ else _] => destruct x end; try discriminate.
-    + apply IH.
-    + match goal with |- context [match ?l with [] => _ | _ :: _ => _ end] => destruct l end;
-        [discriminate|apply IH].
+  - exfalso. apply (extract_xml_no_panic img (h_xml_offset h) (h_xml_length h) 48). rewrite Ex. reflexivity.
 Qed.
 
 (** never a panic *)
@@ -252,9 +261,9 @@ Qed.
 Lemma le_num_zero_bytes l : (forall i, nthN i l = 0) -> le_num l = 0.
 Proof.
   induction l as [|b r IH]; intros H; cbn [le_num]; [reflexivity|].
-  pose proof (H 0) as H0. unfold nthN in H0. cbn in H0. subst b.
+  pose proof (H 0) as H0. unfold nthN in H0. change (N.to_nat 0) with 0%nat in H0. cbn [nth] in H0. subst b.
   rewrite IH; [reflexivity|]. intros i. specialize (H (i + 1)). unfold nthN in *.
-  replace (N.to_nat (i + 1)) with (S (N.to_nat i)) in H by lia. exact H.
+  replace (N.to_nat (i + 1)) with (S (N.to_nat i)) in H by lia. cbn [nth] in H. exact H.
 Qed.
 
 Lemma z2440_xml_length img : z2440 img -> le_num (slice 32 8 (take 48 img)) = 0.
@@ -273,7 +282,7 @@ Proof.
   rewrite rrun_g_bind. unfold r_seek at 1. cbn [rrun_g gr_step].
   destruct (len img <=? xo); cbn [fst snd]; [discriminate|].
   unfold rd, r_read_exact. cbn [rrun_g gr_step]. cbv zeta.
-  change (N.to_nat (N.min 0 _)) with 0%nat. cbn [gr_read_exact_loop]. change (0 =? 0) with true.
+  rewrite N.min_0_l. change (N.to_nat 0) with 0%nat. cbn [gr_read_exact_loop]. change (0 =? 0) with true.
   cbv iota. cbn [res_map rrun_g snd]. intros H. injection H as <-. reflexivity.
 Qed.
 
